@@ -152,7 +152,7 @@ pub fn op(cfg: ProgCfg, nkeys: usize, nblobs: usize) -> BoxedStrategy<Op> {
             prop_oneof![3 => Just(XKind::Copy), 2 => Just(XKind::HardLink), 1 => Just(XKind::Reflink)],
             prop::bool::weighted(0.7),
             gen::by(nkeys, nblobs),
-            prop_oneof![4 => Just(Dest::Absent), 2 => Just(Dest::Existing), 1 => Just(Dest::OtherFs), 1 => Just(Dest::LongName), 1 => Just(Dest::WithSiblings), 1 => Just(Dest::LinkOfContent), 1 => Just(Dest::ExistingSuperset), 1 => Just(Dest::SymlinkToContent), 1 => Just(Dest::Directory)],
+            prop_oneof![4 => Just(Dest::Absent), 2 => Just(Dest::Existing), 1 => Just(Dest::OtherFs), 1 => Just(Dest::LongName), 1 => Just(Dest::WithSiblings), 1 => Just(Dest::LinkOfContent), 1 => Just(Dest::ExistingSuperset), 1 => Just(Dest::SymlinkToContent), 1 => Just(Dest::Directory), 1 => Just(Dest::ExistingSameLength)],
         )
             .prop_map(|(kind, checked, by, dest)| Op::Extract { kind, checked, by, dest })
             .boxed(),
@@ -271,8 +271,19 @@ pub fn program(cfg: ProgCfg) -> BoxedStrategy<Program> {
         gen::key_pool(cfg.keys.0, cfg.keys.1),
         gen::blob_pool(cfg.blobs.0, cfg.blobs.1, cfg.sizes),
         vec((op(cfg, maxk, maxb), gen::fl()), 1..=cfg.max_steps),
+        0u8..24,
     )
-        .prop_map(move |(keys, blobs, steps)| {
+        .prop_map(move |(mut keys, blobs, steps, alias)| {
+            // now and then the last key of the pool is, as text, the ADDRESS of the first value
+            // of the pool (keys are opaque strings: such a key is a key like any other)
+            if alias < 3 && blobs[0].len <= 65536 {
+                let a = [crate::blob::Algo::Sha256, crate::blob::Algo::Sha1, crate::blob::Algo::Sha512][alias as usize];
+                let k = crate::blob::sri(a, &blobs[0].bytes());
+                if !keys.contains(&k) {
+                    let last = keys.len() - 1;
+                    keys[last] = k;
+                }
+            }
             let nk = keys.len();
             let nb = blobs.len();
             let steps = steps
